@@ -37,11 +37,11 @@ P = {
    ref="DESIGN.md §2 C03"),
  "C05": dict(
    technique="must-precede on SSA (acquisition/publication orders), guarded-by lockset analysis with requires-lock summaries, who-may-call reachability for the sequence helpers, size-model check of 64-bit atomics",
-   text="Decides the publication/acquisition ORDERS (sequence → buffers → version for readers; insert → publish for writers; install → drop for flushes; install → publish for transactions), the guarded-by discipline of the shared pointers and reference counts, the atomic-only discipline of DB.seq and the single-writer token contracts. Interleavings and linearizability as such are NOT decided; a broken clause is a schedule with an inconsistent cut.",
+   text="Decides the publication/acquisition ORDERS (sequence → buffers → version for readers; insert → publish for writers; install → drop for flushes; install → publish for transactions), the guarded-by discipline of the shared pointers and reference counts, the atomic-only discipline of DB.seq and the single-writer token contracts. Also, module-wide: every field touched through sync/atomic is touched through it everywhere (fresh objects excepted) and is overwritten by a plain atomic store only in reviewed places; the file-number counter goes back only by a compare-and-swap from num+1 to num. Interleavings and linearizability as such are NOT decided; a broken clause is a schedule with an inconsistent cut.",
    ref="DESIGN.md §2 C05"),
  "C06": dict(
    technique="comparer-discipline scan, guard extraction (writer order check, sort-by-level, insertion shortcut), value-origin flow (bounds, levels of the compaction edit), who-may-call for the trivial flag",
-   text="Decides the code shapes that establish the LSM invariant: comparer used for every key comparison, outputs cut at user-key boundaries, writer rejects disorder and records true bounds, levels sorted (or legally inserted) on install, a compaction edit deletes exactly its inputs and adds outputs one level down after expanding inputs, recovered tables at level 0. The invariant on actual versions is NOT decided.",
+   text="Decides the code shapes that establish the LSM invariant: comparer used for every key comparison, outputs cut at user-key boundaries, writer rejects disorder and records true bounds, levels sorted (or legally inserted) on install, a compaction edit deletes exactly its inputs and adds outputs one level down after expanding inputs, recovered tables at level 0. A file number has one owner: the allocation counter is lowered only atomically and only from num+1 to num. The invariant on actual versions is NOT decided.",
    ref="DESIGN.md §2 C06"),
  "C07": dict(
    technique="typestate pairing of version/buffer references, who-may-delete reachability with a reviewed deleter table, guard extraction (remove-at-zero, startup sweep keep-conditions), must-precede (install before release, discard before unlock)",
@@ -57,7 +57,7 @@ P = {
    ref="DESIGN.md §2 C11"),
  "C18": dict(
    technique="exhaustiveness over *DB's exported method set (go/types), guard extraction (closed/released/read-only gates), VTA call-graph reachability from the read-only open path, pairing of the storage lock",
-   text="Decides that every fallible exported DB method tests the closed flag before touching anything, Close is gated by a compare-and-swap, snapshot and iterator handles test their own state first, the storage lock is taken first/released on failure/exclusive in both storages, the read-only open path cannot reach any storage mutation and the file storage's mutators refuse when read-only, and that the read-only state rejects writers. Races with Close and drain timing are NOT decided.",
+   text="Decides that every fallible exported DB method tests the closed flag before touching anything, Close is gated by a compare-and-swap, snapshot and iterator handles test their own state first, the storage lock is taken first/released on failure/exclusive in both storages, the read-only open path cannot reach any storage mutation and the file storage's mutators refuse when read-only, and that the read-only state rejects writers. Read-only recovery replays every live journal into the one buffer it then serves from and never empties it. Races with Close and drain timing are NOT decided.",
    ref="DESIGN.md §2 C18"),
  "C20": dict(
    technique="interprocedural value-flow: freshness summaries for returned buffers, per-(function,parameter) taint summaries for retained/modified arguments with callbacks resolved at call sites, store-shape check for iterator buffers",
@@ -65,7 +65,7 @@ P = {
    ref="DESIGN.md §2 C20"),
  "C12": dict(
    technique='guard extraction (acceptance gates of the journal reader), sibling comparison of normalised offset expressions between journal writer and reader, constant agreement, sticky-error check',
-   text='Decides the gates and agreements journal framing rests on: the reader accepts a chunk only after header/type/length/CRC checks and first-chunk typing; the writer never lets a header straddle a block; checksummed range, length field, type byte and payload start sit at the same offsets on both sides with the same constants; the writer latches errors. Round-trip equality and damage containment over all byte streams are not decided.',
+   text='Decides the gates and agreements journal framing rests on: the reader accepts a chunk only after header/type/length/CRC checks and first-chunk typing; the writer never lets a header straddle a block; checksummed range, length field, type byte and payload start sit at the same offsets on both sides with the same constants; the writer latches errors. Also what a record reader does when a continuation chunk cannot be fetched: the call ends in an error (no retry, no payload, never nil or io.EOF), io.ErrUnexpectedEOF — the "skip this record" value — is substituted for the internal skip marker only, and every other error passes unchanged. Round-trip equality and damage containment over all byte streams are not decided.',
    ref="DESIGN.md §2 C12"),
  "C13": dict(
    technique='guard extraction with exactness (converse) checks on block/entry decoding and Seek, checksum-gate plumbing via call-site argument flow, sibling comparison of table writer/reader trailer/footer layout, must-follow rules for restart points and index entries',
@@ -73,7 +73,7 @@ P = {
    ref="DESIGN.md §2 C13"),
  "C14": dict(
    technique="guarded-by lockset analysis with requires-lock summaries, path-sensitive lock pairing, constant-flag call-site check (findGE prev), argument taint (copy-in), store-shape check (append-only arena), guard extraction for the counters",
-   text="Decides the lock discipline and bookkeeping shape of the in-memory buffer: shared fields only under mu (exclusive for writes), predecessor-recording search only under the write lock, lock paired on every exit, arguments copied and arena append-only, n/kvSize updated only for new/existing keys respectively. Skip-list order, Len/Size arithmetic over histories and iterator results under concurrent inserts are not decided.",
+   text="Decides the lock discipline and bookkeeping shape of the in-memory buffer: shared fields only under mu (exclusive for writes), predecessor-recording search only under the write lock, lock paired on every exit, arguments copied and arena append-only, n/kvSize updated only for new/existing keys respectively. Also the iterator's direction flag (every move leaves it at its own direction; Next/Prev wrap around exactly from the opposite end) and the skip-list search decisions (advance / hit / end-of-tower tables). Skip-list order, Len/Size arithmetic over histories and iterator results under concurrent inserts are not decided.",
    ref="DESIGN.md §2 C14"),
  "C15": dict(
    technique="abstract interpretation of iComparer.Compare's loop-free CFG over the finite sign domain, guard extraction for the Separator/Successor shortening conditions, sibling comparison of trailer encode/decode, constant evaluation, comparer-discipline scan",
@@ -85,7 +85,7 @@ P = {
    ref="DESIGN.md §2 C16"),
  "C17": dict(
    technique="guarded-by lockset analysis and lock pairing for the cache/LRU, guard extraction (constructor once, finalise at zero refs, ban flag), lockset query for calls reaching Handle.Release, exactly-once path rules for the deletion callback, must-pass-through for the capacity trim",
-   text="Decides the structural conditions of the cache guarantees: fields under their locks, constructor only under the node lock when empty, handle release never under the policy lock, idempotent finalisation only at zero references followed by removal, deletion callback queued-or-called exactly once per path, capacity trim loop before every unlock, admission only if it fits, banned nodes never re-admitted. Per-key uniqueness across concurrent resizes and run-time ordering of finalisation vs. handle release are not decided.",
+   text="Decides the structural conditions of the cache guarantees: fields under their locks, constructor only under the node lock when empty, handle release never under the policy lock, idempotent finalisation only at zero references followed by removal, deletion callback queued-or-called exactly once per path, capacity trim loop before every unlock, admission only if it fits, banned nodes never re-admitted. The ban record itself is permanent (flag only ever set, record cleared only where tested not banned). Per-key uniqueness across concurrent resizes and run-time ordering of finalisation vs. handle release are not decided.",
    ref="DESIGN.md §2 C17"),
  "C19": dict(
    technique="value-origin flow (level constant, file number, running maxima identified by SSA phi/branch shape), must-precede / not-on-error path rules (rebuild→close→rename, create→commit, recoverTable→openDB), guard extraction with exactness checks for registration/rebuild/abort decisions",
